@@ -280,10 +280,21 @@ def serde_items(attrs, where, allowed):
 # ------------------------------------------------------------------------------------------------
 # Coq text helpers
 # ------------------------------------------------------------------------------------------------
+STR_CONSTS = {}   # literal -> Coq constant name (emitted at the top of the generated file, already evaluated to bytes,
+                  # so that no Coq `string` value survives into the extracted model)
+
+
 def coq_str(s):
     if not re.fullmatch(r"[ -!#-~]*", s):
         raise TranslateError(f"name {s!r} is not printable ASCII without quotes")
-    return f's2b "{s}"'
+    if s not in STR_CONSTS:
+        base = "s_" + (re.sub(r"[^A-Za-z0-9]+", "_", s).strip("_") or "empty")
+        name, i = base, 1
+        while name in STR_CONSTS.values():
+            i += 1
+            name = f"{base}_{i}"
+        STR_CONSTS[s] = name
+    return STR_CONSTS[s]
 
 
 def snake_to_camel(s):
@@ -916,11 +927,13 @@ def signed_messages():
 # ------------------------------------------------------------------------------------------------
 @translate.register("WireSpec.v")
 def gen():
-    L = ["(* GENERATED by tools/translate_wire.py from /repo — do not edit. *)",
-         "From TeosModel Require Import Base Wire.",
-         "From Coq Require Import String.",
-         "Local Open Scope string_scope.",
-         ""]
+    STR_CONSTS.clear()
+    head = ["(* GENERATED by tools/translate_wire.py from /repo — do not edit. *)",
+            "From TeosModel Require Import Base Wire.",
+            "From Coq Require Import String.",
+            "Local Open Scope string_scope.",
+            ""]
+    L = []
     check_ser_rs()
     msgs, enum_types = build_messages()
     L.append("(* teos-common/build.rs attributes applied to teos-common/proto (prost-build path matching) *)")
@@ -970,4 +983,8 @@ def gen():
     L.append("Definition MATCH_STATUS : list (Z * (Z * Z)) := [" + "; ".join(f"({translate.zlit(c)}, ({translate.zlit(h)}, {translate.zlit(e)}))" for c, h, e in arms) + "].")
     L.append(f"Definition MATCH_STATUS_DEFAULT : Z * Z := ({translate.zlit(dflt[0])}, {translate.zlit(dflt[1])}).")
     L.append("")
-    return "\n".join(L) + "\n"
+    head.append("(* every name and literal used below, as bytes *)")
+    for lit, name in STR_CONSTS.items():
+        head.append(f'Definition {name} : str := Eval vm_compute in s2b "{lit}".')
+    head.append("")
+    return "\n".join(head + L) + "\n"
